@@ -118,15 +118,37 @@ def gen_coqproject():
 
 
 def setup_all():
-    """MANIFEST.setup_cmd: full .vo build of the whole development"""
+    """MANIFEST.setup_cmd: full .vo build (coqc, no -vos) of the Coq files of every
+    property claimed in MANIFEST.json.  Properties sharing a directory are built
+    one after the other, different directories in parallel."""
+    import importlib
+    man = json.load(open(os.path.join(VERIF, "MANIFEST.json")))
+    groups = {}
+    for chk in man["checks"]:
+        pid = chk["property_id"]
+        P = importlib.import_module("harness." + pid.lower())
+        if hasattr(P, "pre_build"):
+            setup_repo_path()
+            P.pre_build()
+        groups.setdefault(P.COQ_FILES[0].split("/")[0], []).append((pid, P.COQ_FILES))
+
+    def build_group(item):
+        out = []
+        for pid, files in item[1]:
+            r = build_coq(files, clean=False)
+            out.append((pid, r["ok"], round(r["wall_s"], 1), r["log"][-1500:] if not r["ok"] else ""))
+        return out
+
+    rc = 0
+    t0 = time.time()
+    with ThreadPoolExecutor(max_workers=12) as ex:
+        for res in ex.map(build_group, sorted(groups.items())):
+            for pid, ok, wall, log in res:
+                print(f"setup: {pid} {'ok' if ok else 'FAILED'} {wall}s {log}")
+                if not ok:
+                    rc = 1
     gen_coqproject()
-    rc, out, err, _ = sh("coq_makefile -f _CoqProject -o Makefile", 120, cwd=COQ)
-    if rc != 0:
-        print(out, err)
-        return rc
-    rc, out, err, wall = sh(["timeout", "3000", "make", "-j16"], 3100, cwd=COQ)
-    print(out[-3000:], err[-3000:])
-    print(f"setup: make rc={rc} wall={wall:.0f}s")
+    print(f"setup: done in {time.time() - t0:.0f}s rc={rc}")
     return rc
 
 
@@ -150,11 +172,14 @@ def build_coq(files, clean=False, timeout=900):
                 res["log"] += f"\nforbidden token {bad!r} in {f}"
     dirty = clean
     out_last = ""
+    newest_dep = 0.0
     for f in files:
         v = os.path.join(COQ, f)
         vo = v[:-2] + ".vo"
-        need = dirty or f == prop or not os.path.exists(vo) or os.path.getmtime(vo) < os.path.getmtime(v)
+        need = (dirty or f == prop or not os.path.exists(vo)
+                or os.path.getmtime(vo) < max(os.path.getmtime(v), newest_dep))
         if not need:
+            newest_dep = max(newest_dep, os.path.getmtime(vo))
             continue
         rc, out, err, _ = sh(["timeout", str(timeout), "coqc", "-Q", ".", "KD", f], timeout + 30, cwd=COQ)
         if f != prop:
